@@ -1,6 +1,342 @@
 package main
 
-func runCheck(args []string) int { return 2 }
+// Property-level driver: roots per property, obligation discharge, verdict
+// lines, evidence file, known findings.
+
+import (
+	"crypto/sha256"
+	"encoding/json"
+	"fmt"
+	"os"
+	"path/filepath"
+	"sort"
+	"strconv"
+	"strings"
+	"sync"
+	"time"
+)
+
+type PropSpec struct {
+	ID    string
+	Roots []string
+	// Kinds restricts automatically generated (panic) obligations; contract
+	// obligations are selected by clause tags.
+	AutoKinds bool
+	Note      string
+	Extra     func(w *World, run *PropRun)
+}
+
+var autoKinds = map[string]bool{"index": true, "slice": true, "nil-deref": true, "type-assert": true, "panic": true,
+	"make-len": true, "div-zero": true, "nil-call": true, "dyn-call": true, "nil-map": true, "extern-pre": true}
+
+type PropRun struct {
+	Spec     *PropSpec
+	Tier     string
+	Results  []*Result
+	Roots    []string
+	Unsup    []string
+	Notes    []string
+	Trusted  map[string]bool
+	Inlined  map[string]bool
+	Used     map[string]bool
+	Extra    []string // extra evidence lines
+	Bounded  []string
+	ExtraObs int
+	ExtraOK  int
+	Viol     []violation
+	mu       sync.Mutex
+}
+
+type violation struct {
+	ob      string
+	replay  string
+	noInput bool
+	desc    string
+}
+
+func clauseActive(tags []string, prop string) bool {
+	if len(tags) == 0 || prop == "" {
+		return true
+	}
+	for _, t := range tags {
+		if t == prop {
+			return true
+		}
+	}
+	return false
+}
+
+type knownFinding struct {
+	prop string
+	ob   string
+	text string
+}
+
+func readKnownFindings() []knownFinding {
+	data, err := os.ReadFile("/verif/known_findings.txt")
+	if err != nil {
+		return nil
+	}
+	var out []knownFinding
+	for _, line := range strings.Split(string(data), "\n") {
+		line = strings.TrimSpace(line)
+		if !strings.HasPrefix(line, "finding:") {
+			continue
+		}
+		rest := strings.TrimSpace(line[len("finding:"):])
+		var kf knownFinding
+		for _, f := range strings.Fields(rest) {
+			if strings.HasPrefix(f, "property=") {
+				kf.prop = f[len("property="):]
+			} else if strings.HasPrefix(f, "obligation=") {
+				kf.ob = f[len("obligation="):]
+			}
+		}
+		kf.text = rest
+		out = append(out, kf)
+	}
+	return out
+}
+
+func runCheck(args []string) int {
+	if len(args) < 1 {
+		fatal("usage: mqvc check <Cnn> [quick|thorough]")
+	}
+	id := args[0]
+	tier := "quick"
+	if len(args) > 1 {
+		tier = args[1]
+	}
+	if t := os.Getenv("VERIF_TIER"); t != "" && len(args) < 2 {
+		tier = t
+	}
+	spec := propSpecs[id]
+	if spec == nil {
+		fatal("unknown property %s", id)
+	}
+	t0 := time.Now()
+	w := loadWorld()
+	w.prop = id
+	run := &PropRun{Spec: spec, Tier: tier, Trusted: map[string]bool{}, Inlined: map[string]bool{}, Used: map[string]bool{}}
+	timeout := 10000
+	if tier == "thorough" {
+		timeout = 60000
+	}
+	// transitive closure of roots over used contracts
+	todo := append([]string{}, spec.Roots...)
+	if r := os.Getenv("MQVC_ROOTS"); r != "" {
+		todo = strings.Split(r, ",")
+	}
+	seen := map[string]bool{}
+	var vcs []*VC
+	for len(todo) > 0 {
+		name := todo[0]
+		todo = todo[1:]
+		if seen[name] {
+			continue
+		}
+		seen[name] = true
+		fn := w.funcs[name]
+		if fn == nil {
+			run.Unsup = append(run.Unsup, "root function not found: "+name)
+			continue
+		}
+		if c := w.contracts[name]; c != nil && c.Trusted {
+			run.Trusted["contract of "+name+" (trusted, body not verified)"] = true
+			continue
+		}
+		vc := w.buildVC(fn)
+		vcs = append(vcs, vc)
+		run.Roots = append(run.Roots, name)
+		for _, u := range sortedKeys(vc.used) {
+			if !seen[u] {
+				todo = append(todo, u)
+			}
+		}
+	}
+	// solve in parallel
+	var wg sync.WaitGroup
+	sem := make(chan struct{}, 6)
+	resCh := make([][]*Result, len(vcs))
+	for i, vc := range vcs {
+		wg.Add(1)
+		go func(i int, vc *VC) {
+			defer wg.Done()
+			sem <- struct{}{}
+			defer func() { <-sem }()
+			resCh[i] = solveVC(vc, solveOpts{timeoutMs: timeout})
+		}(i, vc)
+	}
+	wg.Wait()
+	for i, vc := range vcs {
+		run.Results = append(run.Results, resCh[i]...)
+		for _, u := range vc.unsup {
+			run.Unsup = append(run.Unsup, u)
+		}
+		run.Notes = append(run.Notes, vc.notes...)
+		for k := range vc.trusted {
+			run.Trusted[k] = true
+		}
+		for k := range vc.inlined {
+			run.Inlined[k] = true
+		}
+		for k := range vc.used {
+			run.Used[k] = true
+		}
+	}
+	if spec.Extra != nil {
+		spec.Extra(w, run)
+	}
+	return run.report(w, t0)
+}
+
+func (run *PropRun) report(w *World, t0 time.Time) int {
+	id := run.Spec.ID
+	known := readKnownFindings()
+	isKnown := func(ob string) *knownFinding {
+		for i := range known {
+			if known[i].prop == id && known[i].ob == stripOcc(ob) {
+				return &known[i]
+			}
+		}
+		return nil
+	}
+	os.MkdirAll("/verif/replays/"+id, 0o755)
+	total, discharged := 0, 0
+	bySolver := map[string]int{}
+	var solverSecs float64
+	var samples []map[string]interface{}
+	exit := 0
+	knownPrinted := map[string]bool{}
+	var failed []*Result
+	for _, r := range run.Results {
+		total++
+		if r.Status == "unsat" {
+			discharged++
+			bySolver[r.Solver]++
+			solverSecs += r.Secs
+			if len(samples) < 6 && r.Solver != "simplifier" {
+				samples = append(samples, map[string]interface{}{"obligation": r.Ob.Name, "kind": r.Ob.Kind, "claim": r.Ob.Desc, "backend": r.Solver, "status": "discharged"})
+			}
+			continue
+		}
+		failed = append(failed, r)
+	}
+	nviol := 0
+	for _, r := range failed {
+		if kf := isKnown(r.Ob.Name); kf != nil {
+			if !knownPrinted[kf.ob] {
+				fmt.Printf("KNOWN-FINDING: property=%s %s\n", id, kf.text)
+				knownPrinted[kf.ob] = true
+			}
+			total-- // known findings are not part of the claimed obligation set
+			continue
+		}
+		nviol++
+		path := fmt.Sprintf("/verif/replays/%s/%s.txt", id, sanitize(r.Ob.Name))
+		confirmed := writeReplay(w, r, path, id)
+		suffix := ""
+		if !confirmed {
+			suffix = " no-failing-input-found"
+		}
+		fmt.Printf("VIOLATION property=%s replay=%s obligation=%s status=%s%s\n", id, path, r.Ob.Name, r.Status, suffix)
+		exit = 1
+	}
+	sort.Strings(run.Unsup)
+	run.Unsup = uniq(run.Unsup)
+	for _, u := range run.Unsup {
+		nviol++
+		path := fmt.Sprintf("/verif/replays/%s/unsupported-%x.txt", id, sha256.Sum256([]byte(u)))[:80] + ".txt"
+		os.WriteFile(path, []byte("obligation: generator/unsupported\nreason: "+u+"\nThe function uses a construct outside the verified Go subset; its obligations can no longer be generated, so the property is not proved for it.\n"), 0o644)
+		fmt.Printf("VIOLATION property=%s replay=%s obligation=generator/unsupported (%s) no-failing-input-found\n", id, path, u)
+		exit = 1
+	}
+	for _, v := range run.Viol {
+		nviol++
+		suffix := ""
+		if v.noInput {
+			suffix = " no-failing-input-found"
+		}
+		fmt.Printf("VIOLATION property=%s replay=%s obligation=%s%s\n", id, v.replay, v.ob, suffix)
+		exit = 1
+	}
+	total += run.ExtraObs
+	discharged += run.ExtraOK
+	// evidence
+	var trusted []string
+	trusted = append(trusted, "x/tools go/packages + go/ssa v0.29.0 as front end; Go compiler/runtime semantics for the verified subset",
+		"the VC generator (cmd/mqvc) and the SMT solvers z3 5.1.0 / z3 4.8.12 / cvc5 1.0.3",
+		"64-bit int/uint addition and multiplication treated as mathematical (offsets and lengths bounded by addressable memory; slice capacities <= 2^48)",
+		"package-level variables keep their initial values (_LEN nil, ErrMissingData non-nil)",
+		"methods are verified for non-nil receivers")
+	for _, k := range sortedKeys(run.Trusted) {
+		if d, ok := externDoc[k]; ok {
+			trusted = append(trusted, "trusted model: "+d)
+		} else {
+			trusted = append(trusted, "trusted model: "+k)
+		}
+	}
+	trusted = uniq(trusted)
+	cov := map[string]interface{}{
+		"obligations":        total,
+		"discharged":         discharged,
+		"checker_cmd":        fmt.Sprintf("/verif/check %s %s", id, run.Tier),
+		"trusted_base":       trusted,
+		"samples":            samples,
+		"functions_verified": run.Roots,
+		"functions_inlined":  sortedKeys(run.Inlined),
+		"contracts_used":     sortedKeys(run.Used),
+		"backends":           bySolver,
+		"solver_seconds":     round2(solverSecs),
+		"notes":              uniq(run.Notes),
+		"extra":              run.Extra,
+		"bounded_standins":   run.Bounded,
+		"explanation":        run.Spec.Note,
+	}
+	ev := map[string]interface{}{
+		"property_id": id,
+		"tier":        run.Tier,
+		"seed":        seedEnv(),
+		"level":       "proof",
+		"coverage":    cov,
+		"assumptions": trusted,
+		"wall_s":      round2(time.Since(t0).Seconds()),
+		"violations":  nviol,
+	}
+	os.MkdirAll("/verif/evidence", 0o755)
+	data, _ := json.MarshalIndent(ev, "", " ")
+	os.WriteFile(filepath.Join("/verif/evidence", id+".json"), data, 0o644)
+	fmt.Printf("%s %s: %d obligations, %d discharged, %d violations, %.1fs\n", id, run.Tier, total, discharged, nviol, time.Since(t0).Seconds())
+	return exit
+}
+
+func stripOcc(name string) string {
+	if i := strings.LastIndex(name, "#"); i > 0 {
+		if _, err := strconv.Atoi(name[i+1:]); err == nil {
+			return name[:i]
+		}
+	}
+	return name
+}
+
+func round2(f float64) float64 { return float64(int(f*100+0.5)) / 100 }
+
+func seedEnv() int {
+	n, _ := strconv.Atoi(os.Getenv("VERIF_SEED"))
+	return n
+}
+
+func uniq(in []string) []string {
+	seen := map[string]bool{}
+	var out []string
+	for _, s := range in {
+		if !seen[s] {
+			seen[s] = true
+			out = append(out, s)
+		}
+	}
+	return out
+}
 
 // checkFrame: obligations that nothing outside the assigns clauses changed.
 func (fr *Frame) checkFrame(c *Contract, scope map[string]*Val) {}
